@@ -923,7 +923,8 @@ Proof.
       pose proof (Hsc _ Hm) as Hgs.
       assert (HGS : gm K (EGroup BOr scratch) = true).
       { cbn [gm is_and_or andb]. apply forallb_forall. apply Forall_forall. exact Hgs. }
-      destruct (matrix_fires scratch) eqn:Ef; [|inversion H; subst; exact HGS].
+      destruct (matrix_table scratch) eqn:Et; [|inversion H; subst; exact HGS].
+      pose proof (matrix_table_fires _ Et) as Ef.
       cbv zeta in H.
       apply C03.bind_ok_inv in H. destruct H as ([rows others] & Hp & H).
       pose proof (scratch_d18 ord neg F g scratch Hh18 Hm Ef) as Hd.
@@ -989,7 +990,7 @@ Proof.
     + cbn [matrix] in H. apply C03.bind_ok_inv in H. destruct H as (l' & Hm & H). inversion H; subst.
       cbn [cr2]. apply C01.forallb_intro. intros y Hy. apply cr2_cr1. exact (Hsc _ Hm y Hy).
     + rewrite matrix_or_eq in H. apply C03.bind_ok_inv in H. destruct H as (scratch & Hm & H).
-      destruct (matrix_fires scratch); [|inversion H; subst; reflexivity].
+      destruct (matrix_table scratch); [|inversion H; subst; reflexivity].
       cbv zeta in H. apply C03.bind_ok_inv in H. destruct H as ([rows others] & Hp & H).
       pose proof (place_all_others _ _ _ _ Hp) as Hsub.
       destruct rows as [|r0 rows0]; cbn [app] in H.
@@ -1140,8 +1141,9 @@ Proof.
       assert (HV1 : V1 (EGroup BOr g) = sumr (map V1 g)) by (apply (val_or o ids1 _ d K Hok1 g Hgl)).
       assert (HRs : Rn neg (sumr (map V2 scratch)) (V1 (EGroup BOr g))).
       { rewrite HV1. apply Rn_sumr. exact HR. }
-      destruct (matrix_fires scratch) eqn:Ef.
+      destruct (matrix_table scratch) eqn:Et.
       2:{ inversion H; subst e'. unfold V2 at 1. rewrite (val_or o ids2 _ d K Hok2 scratch G'). exact HRs. }
+      pose proof (matrix_table_fires _ Et) as Ef.
       cbv zeta in H. set (cols := matrix_cols ord (count_fields scratch)) in *.
       apply C03.bind_ok_inv in H. destruct H as ([rows others] & Hp & H).
       pose proof (scratch_d18 ord neg F g scratch Hh18 Hm Ef) as Hd18.
